@@ -31,6 +31,7 @@ type aggregate struct {
 	wall         float64
 	exploreWall  float64
 	stoppedEarly bool
+	stalls       int
 
 	perFlavourPlanned map[string]int
 }
@@ -70,6 +71,8 @@ func (a *aggregate) add(flavour string, e *proto.End) {
 		a.samples = append(a.samples, e.Sample)
 	}
 }
+
+func (a *aggregate) addStall(class string) { a.stalls++ }
 
 func (a *aggregate) addDeath(flavour string) {
 	a.evaluations++
